@@ -22,12 +22,28 @@ structure Q where
   cap : Int
   order : Nat            -- globalOrder
   users : List User      -- waiting users
+  /-- ghost (history variable, not in the Go code): `(v, u)` = user `u` was granted a query while user `v`
+      has been waiting without being granted since -/
+  passed : List (Nat × Nat) := []
+  /-- ghost: set by a grant to `u` made while some other user `v` with `(v, u) ∈ passed` is still waiting,
+      i.e. `u` is granted twice while `v`, already waiting at the first grant, is still waiting -/
+  bad : Bool := false
 deriving DecidableEq, Repr
 
 inductive Variant | loop | eqOnce
 deriving DecidableEq, Repr
 
 def init (cap : Int) : Q := { active := 0, cap := cap, order := 0, users := [] }
+
+/-- ghost bookkeeping for a grant to user `t` made in state `s` (users = who is waiting at that moment) -/
+def overtakes (s : Q) (t : Nat) : Bool :=
+  s.users.any (fun v => v.token != t && s.passed.contains (v.token, t))
+
+def passedAfter (s : Q) (t : Nat) : List (Nat × Nat) :=
+  s.passed.filter (fun p => p.1 != t) ++ (s.users.filter (fun v => v.token != t)).map (fun v => (v.token, t))
+
+def noteGrant (s : Q) (t : Nat) : Q :=
+  { s with bad := s.bad || overtakes s t, passed := passedAfter s t }
 
 /-- user with the least `order` (LLRB.DeleteMin) -/
 def minUser : List User → Option User
@@ -51,7 +67,7 @@ def grantOne (s : Q) : Option (Q × Nat) :=
     | q :: rest =>
       let others := removeUser u.token s.users
       let users' := if rest.isEmpty then others else { u with order := s.order, qs := rest } :: others
-      some ({ s with active := s.active + 1, order := s.order + 1, users := users' }, q)
+      some ({ noteGrant s u.token with active := s.active + 1, order := s.order + 1, users := users' }, q)
 
 /-- `for q.activeQuery < q.maxActiveQuery { … }` — fuel bounds the number of grants -/
 def drain : Nat → Q → Q × List Nat
@@ -102,9 +118,10 @@ def step (v : Variant) (s : Q) : Op → Q × List Nat
     else
       let s1 := { s with order := s.order + 1 }
       if s1.active < s1.cap then
-        ({ s1 with active := s1.active + 1 }, [q])                 -- fast path
+        ({ noteGrant s1 tok with active := s1.active + 1 }, [q])      -- fast path
       else
-        next v { s1 with users := { token := tok, order := s.order, qs := [q] } :: s1.users }
+        next v { s1 with users := { token := tok, order := s.order, qs := [q] } :: s1.users,
+                         passed := s1.passed.filter (fun p => p.1 != tok) }
   | .cancel q =>
     -- ctx.Done fired; a query that was already granted keeps its slot (isClosed branch)
     ({ s with users := dropQuery q s.users }, [])
